@@ -231,7 +231,13 @@ func (fr *Frame) call(st *State, v ssa.Value, cc *ssa.CallCommon, in ssa.Instruc
 				}
 			}
 		}
-		if pn, ok := callbackName(cc.Value); ok && fr.depth == 0 {
+		pn, ok := callbackName(cc.Value)
+		if !ok && fr.depth == 0 && fr.contract != nil {
+			if fn, fok := fieldCallbackName(cc.Value); fok && fr.contract.PureCallbacks[fn] {
+				pn, ok = fn, true
+			}
+		}
+		if ok && fr.depth == 0 {
 			// a callback passed in by the caller: it may do anything to the heap (an input of the
 			// function, not an unknown of the analysis); its calls and its last result are logged
 			if fr.contract != nil && fr.contract.PureCallbacks[pn] {
@@ -2173,6 +2179,35 @@ func callbackName(v ssa.Value) (string, bool) {
 			}
 		}
 	}
+	return "", false
+}
+
+// fieldCallbackName: a function held in a field of a struct reached from a parameter or the
+// receiver (t.hash), named by the field. Only used when the contract declares it `purecallback`.
+func fieldCallbackName(v ssa.Value) (string, bool) {
+	x, ok := v.(*ssa.UnOp)
+	if !ok {
+		return "", false
+	}
+		if fa, ok := x.X.(*ssa.FieldAddr); ok && x.Op == token.MUL {
+			if _, ok := U(x.Type()).(*types.Signature); ok {
+				if pt, ok := U(fa.X.Type()).(*types.Pointer); ok {
+					if stt, ok := U(pt.Elem()).(*types.Struct); ok && fa.Field < stt.NumFields() {
+						base := fa.X
+						for {
+							if inner, ok := base.(*ssa.FieldAddr); ok {
+								base = inner.X
+								continue
+							}
+							break
+						}
+						if _, isParam := base.(*ssa.Parameter); isParam {
+							return stt.Field(fa.Field).Name(), true
+						}
+					}
+				}
+			}
+		}
 	return "", false
 }
 
